@@ -20,8 +20,10 @@ import RTV.Drv.Holiday
 import RTV.Drv.Durations
 import RTV.Drv.TimePeriod
 import RTV.Drv.DtExtract
+import RTV.Drv.CultureCfg
 import RTV.Drv.ZhDateTime
 import RTV.Drv.DateParser
+import RTV.Drv.NumExtract
 /-! Model driver: one operation per input line (tab-separated), one answer line per operation.
 Run compiled (`.lake/build/bin/rtvdriver`) or with `lake env lean --run Driver.lean`. -/
 open RTV.Drv
@@ -45,6 +47,7 @@ def dispatch (line : String) : String :=
       <|> dispatchDurations op args
       <|> dispatchTimePeriod op args
       <|> dispatchDtExtract op args
+      <|> dispatchCultureCfg op args
       <|> dispatchZhDateTime op args
       <|> dispatchDateParser op args
       <|> dispatchDtRes op args
@@ -53,6 +56,7 @@ def dispatch (line : String) : String :=
       <|> dispatchNumCjk op args
       <|> dispatchSpan op args
       <|> dispatchUnitExtract op args
+      <|> dispatchNumExtract op args
       -- <|> dispatchOther op args   (one alternative per layer)
       ).getD "bad-op"
   | _ => "bad-op"
